@@ -223,6 +223,10 @@ func c02Gen(r *ev.Rand, thorough bool, steered bool) *c02Case {
 		vv := v0
 		add(hx.Op{K: "create_ds", Path: "/neighbour", DT: "i32", Dims: []uint64{4}, Data: &vv, Expect: "ok"})
 	}
+	// in a third of the histories every reopened dataset is held through two handles that take
+	// turns (each has its own copy of the object header)
+	twoHandles := r.Chance(1, 3)
+	sameSize := twoHandles && r.Bool()
 	reopened := false
 	for _, k := range cs.Kinds {
 		if k == "dataset-reopened" {
@@ -235,6 +239,9 @@ func c02Gen(r *ev.Rand, thorough bool, steered bool) *c02Case {
 		for i, k := range cs.Kinds {
 			if k != "group" {
 				add(hx.Op{K: "opends", Path: cs.Targets[i]})
+				if twoHandles {
+					add(hx.Op{K: "opends", Path: cs.Targets[i], Name: cs.Targets[i] + "#B"})
+				}
 			}
 		}
 	}
@@ -286,11 +293,23 @@ func c02Gen(r *ev.Rand, thorough bool, steered bool) *c02Case {
 		if cs.Kinds[ti] == "group" {
 			w = []int{1, 0} // no delete API on groups
 		}
+		hpath := target
+		if twoHandles && reopened && cs.Kinds[ti] != "group" && r.Bool() {
+			hpath = target + "#B"
+		}
+		if sameSize {
+			// every message has the same size: a change made through one handle leaves the
+			// header's size as the other handle remembers it
+			name = fmt.Sprintf("eq%d", r.Intn(6))
+		}
 		if r.Weighted(w) == 0 {
 			v := genAttrVal(r, steered)
-			add(hx.Op{K: "attr", Path: target, Name: name, Data: &v})
+			if sameSize {
+				v = hx.ScalarOf(r, "i32")
+			}
+			add(hx.Op{K: "attr", Path: hpath, Name: name, Data: &v})
 		} else {
-			add(hx.Op{K: "delattr", Path: target, Name: name})
+			add(hx.Op{K: "delattr", Path: hpath, Name: name})
 		}
 		// another writer of the same object header: a hard link to the object adds (or bumps) a
 		// reference-count message among the attribute messages
@@ -305,6 +324,9 @@ func c02Gen(r *ev.Rand, thorough bool, steered bool) *c02Case {
 			for j, k := range cs.Kinds {
 				if k != "group" {
 					add(hx.Op{K: "opends", Path: cs.Targets[j]})
+					if twoHandles && reopened {
+						add(hx.Op{K: "opends", Path: cs.Targets[j], Name: cs.Targets[j] + "#B"})
+					}
 				} else {
 					// groups cannot be reopened for attribute writes: later ops on them are skipped
 					_ = j
@@ -444,6 +466,10 @@ func c02Run(c *ev.Ctx) {
 			break
 		}
 		res := e.Res[i]
+		// "/obj0#B" is a second handle on /obj0: one object, one model entry
+		if j := strings.Index(op.Path, "#"); j >= 0 && (op.K == "attr" || op.K == "delattr") {
+			op.Path = op.Path[:j]
+		}
 		if (op.K == "attr" || op.K == "delattr") && isPair(op.Name) && res.Skipped == "" && res.Panic == "" {
 			if usedColl[op.Path] == nil {
 				usedColl[op.Path] = map[string]bool{}
